@@ -1149,6 +1149,9 @@ func parseBMPMessage(data []byte, optionsFunc func(BMPPeerHeader) []*bgp.Marshal
 	if err != nil {
 		return nil, err
 	}
+	if msg.Header.Length < BMP_HEADER_SIZE || uint64(msg.Header.Length) > uint64(len(data)) {
+		return nil, fmt.Errorf("invalid BMP message length %d (%d bytes available)", msg.Header.Length, len(data))
+	}
 	data = data[BMP_HEADER_SIZE:msg.Header.Length]
 
 	switch msg.Header.Type {
